@@ -376,7 +376,10 @@ def judge (_id : String) (lines : Array String) : Verdict := Id.run do
       if obs != ["0"] then st := addBr st "race-hammer-points-routed-to-tasks-being-stopped"
       continue
     | ["race", "check", _] =>
-      if obs != ["0"] then return .specfail "no-data-race" s!"the Go race detector reported {" ".intercalate obs} data race(s) in the routing path"
+      if obs != ["0"] then
+        if (obs.headD "").startsWith "err" then
+          return .specfail "no-data-race" s!"the race-detector child did not survive ({" ".intercalate obs}): a goroutine of the real code panicked (e.g. send on a closed edge, concurrent map access) or it could not be built/run - see the check's log"
+        return .specfail "no-data-race" s!"the Go race detector reported {" ".intercalate obs} data race(s) in the routing path"
       st := addBr st "race-detector-clean"
       continue
     | _ => pure ()
